@@ -7,8 +7,8 @@ import sys
 import time
 
 VERIF = os.path.dirname(os.path.dirname(os.path.abspath(__file__)))
-QUICK_TIMEOUT_MS = 60000
-THOROUGH_TIMEOUT_MS = 180000
+QUICK_TIMEOUT_MS = 120000
+THOROUGH_TIMEOUT_MS = 300000
 
 
 def load_known():
